@@ -14,6 +14,23 @@ NOTE = ("Decides the property on the executions this run produced (counts are in
 
 CLAIMED = {
     # id: (technique, level text, design ref)
+    "C02": ("runtime monitor: offset/slice/pin-span oracle at the get_citations boundary over dense hostile "
+            "documents, plain + markup mode, three tokenizers",
+            "Held on N observed extractions (every citation kind, each tokenizer, markup mode) of adversarial "
+            "documents; known finding: the hard-wired 'eyecite' joke citation.", "§4/C02"),
+    "C03": ("runtime monitor: order/uniqueness oracle on get_citations results + icontract postcondition on "
+            "every filter_citations call + merge-history checker (identity, idempotence)",
+            "Held on N observed result lists and M merge histories that really added references.", "§4/C03"),
+    "C04": ("runtime monitor: exception-escape monitor at the three public APIs under hostile splices, "
+            "all tokenizer/option/mode configurations",
+            "No exception escaped on N calls per API with every hostile fragment class spliced >= floor times.",
+            "§4/C04"),
+    "C17": ("runtime monitor: substring-of-own-extent oracle on every textual metadata value",
+            "Held on N metadata values incl. observed parallel-copy events and bare consecutive citations.",
+            "§4/C17"),
+    "C18": ("runtime monitor: independent year-range / edition-guess oracle + remove_ambiguous differential",
+            "Held on N resource citations with boundary years in every position and multi-edition reporters "
+            "from the whole database.", "§4/C18"),
     "C12": ("runtime monitor: partition postcondition (icontract) on Tokenizer.tokenize for all three "
             "tokenizers + sys.monitoring loop-invariant hook on the live `offset`",
             "Held on N observed tokenisations of adversarial overlap-forcing documents; mechanism counters "
